@@ -1,11 +1,11 @@
 SPECIFICATION MCSpec
-CONSTANTS Tables = {"a", "b"}
+CONSTANTS Tables = {"a"}
           GroupOf <- Groups1
           MaxFile = 2
           Sizes = {1, 2}
-          MaxItems = 3
-          MaxBatch = 2
-          MaxCrashes = 1
+          MaxItems = 4
+          MaxBatch = 3
+          MaxCrashes = 2
           TailBeyondSync = FALSE
 INVARIANTS NeverFails Aligned ReadableCorrect Durable Monotone IndexOK
 CHECK_DEADLOCK FALSE
